@@ -404,4 +404,327 @@ theorem decMsgF_inv (f : Nat) (b : Bytes) (m : Msg6) (h : decMsgF (f + 1) b = .o
           obtain ⟨os, hos, rfl⟩ := Res.map_eq_ok h
           exact ⟨t, hops, link, peer, rest, os, rfl, ht, hl, hp, hos, rfl⟩
 
+/-! ### what the leaf decoder can return -/
+
+/-- codes with a dedicated branch in `decSimple` -/
+def simpleCodes : List Nat :=
+  [6, 8, 13, 15, 16, 17, 18, 23, 24, 32, 37, 39, 56, 59, 60, 61, 62, 79, 87, 88, 98, 99, 135]
+
+/-- what `decSimple code value` can return -/
+def Shape (c : Nat) (v : Bytes) (o : Opt6) : Prop :=
+  isSimple o = true ∧ o.code = c ∧ (∀ c' d, o = .generic c' d → d = v ∧ c ∉ simpleCodes)
+
+theorem shape_fin {c : Nat} {v : Bytes} {l : Lexer} {a o : Opt6} (h : fin l a = .ok o)
+    (hs : Shape c v a) : Shape c v o := by
+  rw [← fin_eq_ok h]; exact hs
+
+theorem shape_ok {c : Nat} {v : Bytes} {a o : Opt6} (h : Res.ok a = .ok o)
+    (hs : Shape c v a) : Shape c v o := by
+  simp only [Res.ok.injEq] at h; rw [← h]; exact hs
+
+theorem decSimple_other (c : Nat) (data : Bytes) (h : c ∉ simpleCodes) :
+    decSimple c data = .ok (.generic c data) := by
+  simp only [simpleCodes, List.mem_cons, List.mem_nil_iff, or_false, not_or] at h
+  obtain ⟨h6, h8, h13, h15, h16, h17, h18, h23, h24, h32, h37, h39, h56, h59,
+    h60, h61, h62, h79, h87, h88, h98, h99, h135⟩ := h
+  simp only [decSimple, h6, h8, h13, h15, h16, h17, h18, h23, h24, h32, h37, h39, h56, h59, h60, h61,
+    h62, h79, h87, h88, h98, h99, h135, if_false]
+
+local macro "shape_branch" h:ident : tactic =>
+  `(tactic| (try simp only [] at $h:ident
+             try split at $h:ident
+             all_goals first
+               | exact shape_fin $h (by simp [Shape, isSimple, Opt6.code])
+               | exact shape_ok $h (by simp [Shape, isSimple, Opt6.code])
+               | (simp at $h:ident; done)))
+
+theorem decSimple_shape (c : Nat) (v : Bytes) (o : Opt6) (h : decSimple c v = .ok o) : Shape c v o := by
+  by_cases h6 : c = 6
+  · subst h6; rw [decSimple_6] at h; shape_branch h
+  by_cases h8 : c = 8
+  · subst h8; rw [decSimple_8] at h; shape_branch h
+  by_cases h13 : c = 13
+  · subst h13; rw [decSimple_13] at h; shape_branch h
+  by_cases h15 : c = 15
+  · subst h15; rw [decSimple_15] at h; shape_branch h
+  by_cases h16 : c = 16
+  · subst h16; rw [decSimple_16] at h; shape_branch h
+  by_cases h17 : c = 17
+  · subst h17; rw [decSimple_17] at h; shape_branch h
+  by_cases h18 : c = 18
+  · subst h18; rw [decSimple_18] at h; shape_branch h
+  by_cases h23 : c = 23
+  · subst h23; rw [decSimple_23] at h; shape_branch h
+  by_cases h24 : c = 24
+  · subst h24; rw [decSimple_24] at h; shape_branch h
+  by_cases h32 : c = 32
+  · subst h32; rw [decSimple_32] at h; shape_branch h
+  by_cases h37 : c = 37
+  · subst h37; rw [decSimple_37] at h; shape_branch h
+  by_cases h39 : c = 39
+  · subst h39; rw [decSimple_39] at h; shape_branch h
+  by_cases h56 : c = 56
+  · subst h56; rw [decSimple_56] at h; shape_branch h
+  by_cases h59 : c = 59
+  · subst h59; rw [decSimple_59] at h; shape_branch h
+  by_cases h60 : c = 60
+  · subst h60; rw [decSimple_60] at h; shape_branch h
+  by_cases h61 : c = 61
+  · subst h61; rw [decSimple_61] at h; shape_branch h
+  by_cases h62 : c = 62
+  · subst h62; rw [decSimple_62] at h; shape_branch h
+  by_cases h79 : c = 79
+  · subst h79; rw [decSimple_79] at h; shape_branch h
+  by_cases h87 : c = 87
+  · subst h87; rw [decSimple_87] at h; shape_branch h
+  by_cases h88 : c = 88
+  · subst h88; rw [decSimple_88] at h; shape_branch h
+  by_cases h98 : c = 98
+  · subst h98; rw [decSimple_98] at h; shape_branch h
+  by_cases h99 : c = 99
+  · subst h99; rw [decSimple_99] at h; shape_branch h
+  by_cases h135 : c = 135
+  · subst h135; rw [decSimple_135] at h; shape_branch h
+  have hn : c ∉ simpleCodes := by
+    simp only [simpleCodes, List.mem_cons, List.mem_nil_iff, or_false, not_or]
+    exact ⟨h6, h8, h13, h15, h16, h17, h18, h23, h24, h32, h37, h39, h56, h59,
+      h60, h61, h62, h79, h87, h88, h98, h99, h135⟩
+  rw [decSimple_other c v hn] at h
+  refine shape_ok h ⟨rfl, rfl, ?_⟩
+  intro c' d hg
+  simp only [Opt6.generic.injEq] at hg
+  exact ⟨hg.2.symm, hn⟩
+
+/-! ### the dispatch of `parseOpt` -/
+
+theorem parseOpt_leaf (f c : Nat) (d : Bytes) (h : c ∉ containerCodes) :
+    parseOpt (f + 1) c d = decSimple c d := by
+  simp only [containerCodes, List.mem_cons, List.mem_nil_iff, or_false, not_or] at h
+  obtain ⟨h1, h2, h3, h4, h5, h9, h25, h26, h97⟩ := h
+  simp only [parseOpt, h1, h2, h3, h4, h5, h9, h25, h26, h97, if_false]
+
+/-! ### the mutual list relation is the generic tiling -/
+
+theorem POpts_of_Tiles {d : Bytes} {os : List Opt6} (h : Tiles POpt d os) : POpts d os := by
+  induction h with
+  | nil => exact .nil
+  | cons hc hv hp _ ih => exact .cons hc hv hp ih
+
+theorem Tiles_of_POpts : {d : Bytes} → {os : List Opt6} → POpts d os → Tiles POpt d os
+  | _, _, .nil => .nil
+  | _, _, .cons hc hv hp hs => .cons hc hv hp (Tiles_of_POpts hs)
+
+theorem POpts_iff_Tiles (d : Bytes) (os : List Opt6) : POpts d os ↔ Tiles POpt d os :=
+  ⟨Tiles_of_POpts, POpts_of_Tiles⟩
+
+theorem Tiles_and {α : Type} {P : Nat → Bytes → α → Prop} (Q : α → Prop) {d : Bytes} {os : List α}
+    (h : Tiles P d os) (hq : ∀ o ∈ os, Q o) : Tiles (fun c v o => P c v o ∧ Q o) d os := by
+  induction h with
+  | nil => exact .nil
+  | cons hc hv hp _ ih =>
+    exact .cons hc hv ⟨hp, hq _ (by simp)⟩ (ih (fun o ho => hq o (by simp [ho])))
+
+/-! ### soundness: whatever is accepted is in the grammar -/
+
+theorem parseOpt_sound_step (f : Nat) (ihOs : ∀ d os, decOptsF f d = .ok os → POpts d os)
+    (ihM : ∀ b m, decMsgF f b = .ok m → PMsg b m) (c : Nat) (v : Bytes) (o : Opt6)
+    (h : parseOpt (f + 1) c v = .ok o) : POpt c v o := by
+  by_cases h1 : c = 1
+  · subst h1; rw [parseOpt_1] at h
+    obtain ⟨d, hd, rfl⟩ := Res.map_eq_ok h
+    exact .clientID hd
+  by_cases h2 : c = 2
+  · subst h2; rw [parseOpt_2] at h
+    obtain ⟨d, hd, rfl⟩ := Res.map_eq_ok h
+    exact .serverID hd
+  by_cases h3 : c = 3
+  · subst h3; rw [parseOpt_3] at h
+    obtain ⟨iaid, s1, s2, sub, os, rfl, hi, hs1, hs2, hos, rfl⟩ := decIA_inv _ _ _ _ h
+    exact .iana hi hs1 hs2 (ihOs _ _ hos)
+  by_cases h4 : c = 4
+  · subst h4; rw [parseOpt_4] at h
+    obtain ⟨iaid, sub, os, rfl, hi, hos, rfl⟩ := decIATA_inv _ _ _ h
+    exact .iata hi (ihOs _ _ hos)
+  by_cases h5 : c = 5
+  · subst h5; rw [parseOpt_5] at h
+    obtain ⟨ip, s1, s2, sub, os, rfl, hi, hs1, hs2, hos, rfl⟩ := decIAAddr_inv _ _ _ h
+    exact .iaaddr hi hs1 hs2 (ihOs _ _ hos)
+  by_cases h9 : c = 9
+  · subst h9; rw [parseOpt_9] at h
+    obtain ⟨m, hm, rfl⟩ := Res.map_eq_ok h
+    exact .relayMsg (ihM _ _ hm)
+  by_cases h25 : c = 25
+  · subst h25; rw [parseOpt_25] at h
+    obtain ⟨iaid, s1, s2, sub, os, rfl, hi, hs1, hs2, hos, rfl⟩ := decIA_inv _ _ _ _ h
+    exact .iapd hi hs1 hs2 (ihOs _ _ hos)
+  by_cases h26 : c = 26
+  · subst h26; rw [parseOpt_26] at h
+    obtain ⟨s1, s2, len, ip, sub, os, rfl, hs1, hs2, hlen, hi, hos, rfl⟩ := decIAPrefix_inv _ _ _ h
+    exact .iaprefix hs1 hs2 hlen hi (ihOs _ _ hos)
+  by_cases h97 : c = 97
+  · subst h97; rw [parseOpt_97] at h
+    obtain ⟨os, hos, rfl⟩ := Res.map_eq_ok h
+    exact .fourRD (ihOs _ _ hos)
+  have hc : c ∉ containerCodes := by
+    simp only [containerCodes, List.mem_cons, List.mem_nil_iff, or_false, not_or]
+    exact ⟨h1, h2, h3, h4, h5, h9, h25, h26, h97⟩
+  rw [parseOpt_leaf f c v hc] at h
+  exact .leaf hc h
+
+theorem decMsgF_sound_step (f : Nat) (ihOs : ∀ d os, decOptsF f d = .ok os → POpts d os)
+    (b : Bytes) (m : Msg6) (h : decMsgF (f + 1) b = .ok m) : PMsg b m := by
+  rcases decMsgF_inv f b m h with ⟨t, xid, rest, os, rfl, ht, hx, hos, rfl⟩ |
+    ⟨t, hops, link, peer, rest, os, rfl, ht, hl, hp, hos, rfl⟩
+  · exact .msg ht hx (ihOs _ _ hos)
+  · exact .relay ht hl hp (ihOs _ _ hos)
+
+/-- Soundness for every fuel: an accepted option value / option list / message
+is derivable in the framing grammar. -/
+theorem dec_sound : ∀ f,
+    (∀ c v o, parseOpt f c v = .ok o → POpt c v o) ∧
+    (∀ d os, decOptsF f d = .ok os → POpts d os) ∧
+    (∀ b m, decMsgF f b = .ok m → PMsg b m) := by
+  intro f
+  induction f with
+  | zero =>
+    refine ⟨?_, ?_, ?_⟩
+    · intro c v o h; simp [parseOpt] at h
+    · intro d os h; simp [decOptsF] at h
+    · intro b m h; simp [decMsgF] at h
+  | succ f ih =>
+    obtain ⟨ihO, ihOs, ihM⟩ := ih
+    refine ⟨parseOpt_sound_step f ihOs ihM, ?_, decMsgF_sound_step f ihOs⟩
+    intro d os h
+    simp only [decOptsF] at h
+    exact POpts_of_Tiles (optionsFromBytes_sound _ POpt ihO d os h)
+
+/-! ### completeness: everything in the grammar is accepted, given fuel for its nesting -/
+
+theorem fuelOpt_pos (o : Opt6) : 1 ≤ fuelOpt o := by
+  cases o <;> simp [fuelOpt]
+
+theorem fuelMsg_pos (m : Msg6) : 2 ≤ fuelMsg m := by
+  cases m <;> simp [fuelMsg]
+
+theorem dec_complete_fuel : ∀ f,
+    (∀ c v o, POpt c v o → fuelOpt o ≤ f → parseOpt f c v = .ok o) ∧
+    (∀ d os, POpts d os → fuelOpts os + 1 ≤ f → decOptsF f d = .ok os) ∧
+    (∀ b m, PMsg b m → fuelMsg m ≤ f → decMsgF f b = .ok m) := by
+  intro f
+  induction f with
+  | zero =>
+    refine ⟨?_, ?_, ?_⟩
+    · intro c v o _ hf; have := fuelOpt_pos o; omega
+    · intro d os _ hf; omega
+    · intro b m _ hf; have := fuelMsg_pos m; omega
+  | succ f ih =>
+    obtain ⟨ihO, ihOs, ihM⟩ := ih
+    refine ⟨?_, ?_, ?_⟩
+    · intro c v o h hf
+      cases h with
+      | leaf hc hd => rw [parseOpt_leaf f _ _ hc]; exact hd
+      | clientID hd => rw [parseOpt_1, hd]; rfl
+      | serverID hd => rw [parseOpt_2, hd]; rfl
+      | iana hi h1 h2 hos =>
+        simp only [fuelOpt] at hf
+        rw [parseOpt_3, decIA_closed _ _ _ _ _ _ hi h1 h2, ihOs _ _ hos (by omega)]; rfl
+      | iata hi hos =>
+        simp only [fuelOpt] at hf
+        rw [parseOpt_4, decIATA_closed _ _ _ hi, ihOs _ _ hos (by omega)]; rfl
+      | iaaddr hi h1 h2 hos =>
+        simp only [fuelOpt] at hf
+        rw [parseOpt_5, decIAAddr_closed _ _ _ _ _ hi h1 h2, ihOs _ _ hos (by omega)]; rfl
+      | relayMsg hm =>
+        simp only [fuelOpt] at hf
+        rw [parseOpt_9, ihM _ _ hm (by omega)]; rfl
+      | iapd hi h1 h2 hos =>
+        simp only [fuelOpt] at hf
+        rw [parseOpt_25, decIA_closed _ _ _ _ _ _ hi h1 h2, ihOs _ _ hos (by omega)]; rfl
+      | iaprefix h1 h2 hlen hi hos =>
+        simp only [fuelOpt] at hf
+        rw [parseOpt_26, decIAPrefix_closed _ _ _ _ _ _ hi h1 h2, if_neg (by omega),
+          ihOs _ _ hos (by omega)]; rfl
+      | fourRD hos =>
+        simp only [fuelOpt] at hf
+        rw [parseOpt_97, ihOs _ _ hos (by omega)]; rfl
+    · intro d os h hf
+      simp only [decOptsF]
+      have ht := Tiles_and (fun o => fuelOpt o ≤ f) (Tiles_of_POpts h)
+        (fun o ho => by have := fuelOpts_mem o ho; omega)
+      exact optionsFromBytes_complete _ _ (fun c v o hp => ihO c v o hp.1 hp.2) d os ht
+    · intro b m h hf
+      cases h with
+      | msg ht hx hos =>
+        simp only [fuelMsg] at hf
+        rw [decMsgF_msg f _ _ _ ht hx, ihOs _ _ hos (by omega)]; rfl
+      | relay ht hl hp hos =>
+        simp only [fuelMsg] at hf
+        rw [decMsgF_relay f _ _ _ _ _ ht hl hp, ihOs _ _ hos (by omega)]; rfl
+
+/-- Completeness: a derivation in the framing grammar is accepted with the
+same value, given fuel for its nesting depth. -/
+theorem dec_complete :
+    (∀ c v o, POpt c v o → ∀ f, fuelOpt o ≤ f → parseOpt f c v = .ok o) ∧
+    (∀ d os, POpts d os → ∀ f, fuelOpts os + 1 ≤ f → decOptsF f d = .ok os) ∧
+    (∀ b m, PMsg b m → ∀ f, fuelMsg m ≤ f → decMsgF f b = .ok m) :=
+  ⟨fun c v o h f hf => (dec_complete_fuel f).1 c v o h hf,
+   fun d os h f hf => (dec_complete_fuel f).2.1 d os h hf,
+   fun b m h f hf => (dec_complete_fuel f).2.2 b m h hf⟩
+
+/-! ### nesting is bounded by the length: the fuel of `dec6` is always enough -/
+
+theorem fuelOpt_simple {o : Opt6} (h : isSimple o = true) : fuelOpt o = 1 := by
+  cases o <;> first | rfl | (simp [isSimple] at h)
+
+mutual
+theorem fuel_bound_opt : {c : Nat} → {v : Bytes} → {o : Opt6} → POpt c v o → fuelOpt o ≤ v.length + 2
+  | _, _, _, .leaf _ hd => by rw [fuelOpt_simple (decSimple_shape _ _ _ hd).1]; omega
+  | _, _, _, .clientID _ => by simp [fuelOpt]
+  | _, _, _, .serverID _ => by simp [fuelOpt]
+  | _, _, _, .iana _ _ _ h => by have := fuel_bound_opts h; simp [fuelOpt]; omega
+  | _, _, _, .iata _ h => by have := fuel_bound_opts h; simp [fuelOpt]; omega
+  | _, _, _, .iaaddr _ _ _ h => by have := fuel_bound_opts h; simp [fuelOpt]; omega
+  | _, _, _, .relayMsg h => by have := fuel_bound_msg h; simp [fuelOpt]; omega
+  | _, _, _, .iapd _ _ _ h => by have := fuel_bound_opts h; simp [fuelOpt]; omega
+  | _, _, _, .iaprefix _ _ _ _ h => by have := fuel_bound_opts h; simp [fuelOpt]; omega
+  | _, _, _, .fourRD h => by have := fuel_bound_opts h; simp [fuelOpt]; omega
+theorem fuel_bound_opts : {d : Bytes} → {os : List Opt6} → POpts d os → fuelOpts os ≤ d.length
+  | _, _, .nil => by simp [fuelOpts]
+  | _, _, .cons _ _ h hs => by
+    have := fuel_bound_opt h; have := fuel_bound_opts hs; simp [fuelOpts, tlv_length]; omega
+theorem fuel_bound_msg : {b : Bytes} → {m : Msg6} → PMsg b m → fuelMsg m ≤ b.length
+  | _, _, .msg _ hx h => by have := fuel_bound_opts h; simp [fuelMsg, hx]; omega
+  | _, _, .relay _ h1 h2 h => by have := fuel_bound_opts h; simp [fuelMsg, h1, h2]; omega
+end
+
+/-- every nesting level costs at least a 4-byte option header -/
+theorem fuel_bound {c : Nat} {v d b : Bytes} {o : Opt6} {os : List Opt6} {m : Msg6} :
+    (POpt c v o → fuelOpt o ≤ v.length + 2) ∧ (POpts d os → fuelOpts os ≤ d.length) ∧
+    (PMsg b m → fuelMsg m ≤ b.length) :=
+  ⟨fuel_bound_opt, fuel_bound_opts, fuel_bound_msg⟩
+
+/-! ### the entry points -/
+
+/-- `dhcpv6.FromBytes` (model) accepts exactly the messages of the framing grammar -/
+theorem dec6_iff (b : Bytes) (m : Msg6) : dec6 b = .ok m ↔ PMsg b m := by
+  constructor
+  · exact (dec_sound _).2.2 b m
+  · intro h
+    exact dec_complete.2.2 b m h _ (by have := fuel_bound_msg h; simp only [fuelFor]; omega)
+
+/-- `ParseOption(code, data)` (model) accepts exactly the option values of the grammar -/
+theorem parseOption_iff (code : Nat) (data : Bytes) (o : Opt6) :
+    parseOption code data = .ok o ↔ POpt code data o := by
+  constructor
+  · exact (dec_sound _).1 code data o
+  · intro h
+    exact dec_complete.1 code data o h _ (by have := fuel_bound_opt h; simp only [fuelFor]; omega)
+
+/-- `Options.FromBytes(data)` (model) accepts exactly the tilings of `data` by options -/
+theorem decOpts_iff (data : Bytes) (os : List Opt6) : decOpts data = .ok os ↔ POpts data os := by
+  constructor
+  · exact (dec_sound _).2.1 data os
+  · intro h
+    exact dec_complete.2.1 data os h _ (by have := fuel_bound_opts h; simp only [fuelFor]; omega)
+
 end Dhcp.V6
